@@ -1,0 +1,25 @@
+//go:build verif
+
+package app
+
+import (
+	"github.com/pokt-network/pocket-core/codec"
+	appsKeeper "github.com/pokt-network/pocket-core/x/apps/keeper"
+	"github.com/pokt-network/pocket-core/x/auth"
+	govKeeper "github.com/pokt-network/pocket-core/x/gov/keeper"
+	nodesKeeper "github.com/pokt-network/pocket-core/x/nodes/keeper"
+	pocketKeeper "github.com/pokt-network/pocket-core/x/pocketcore/keeper"
+)
+
+// VerifKeepers exposes the keepers of the application to the verification harness (read access for
+// invariants, and the off-chain entry points HandleDispatch/HandleRelay). Verification builds only.
+func (app *PocketCoreApp) VerifKeepers() (auth.Keeper, nodesKeeper.Keeper, appsKeeper.Keeper, govKeeper.Keeper, pocketKeeper.Keeper) {
+	return app.accountKeeper, app.nodesKeeper, app.appsKeeper, app.govKeeper, app.pocketKeeper
+}
+
+// VerifCodec returns the application codec instance.
+func (app *PocketCoreApp) VerifCodec() *codec.Codec { return app.cdc }
+
+// VerifResetCodec drops the package-level codec so that the next application instance in the same
+// process starts from a fresh one (the harness runs many short-lived chains per process).
+func VerifResetCodec() { cdc = nil }
